@@ -521,7 +521,13 @@ func (sp *subProcess) ceaseFlowMonitor(tracer tracing.ITracer) func(ctx context.
 			}
 
 			select {
-			case trace := <-traces:
+			case trace, ok := <-traces:
+				if !ok {
+					// the tracer has terminated (its context is done and the last
+					// sender has gone): a closed channel is ready for ever, this
+					// loop would spin on it
+					return
+				}
 				trace = tracing.Unwrap(trace)
 				switch t := trace.(type) {
 				case TerminationTrace:
@@ -601,8 +607,16 @@ func (sp *subProcess) run(ctx context.Context, out tracing.ITracer) {
 				loop:
 					for {
 						var trace tracing.ITrace
+						var open bool
 						select {
-						case trace = <-traces:
+						case trace, open = <-traces:
+							if !open {
+								// the sub-process's tracer has terminated: nothing
+								// more will ever arrive (and a closed channel is
+								// ready for ever - this loop would spin on it)
+								sp.wr.tracer.Send(CancellationFlowNodeTrace{Node: sp.element})
+								return
+							}
 						case <-ctx.Done():
 							sp.wr.tracer.Send(CancellationFlowNodeTrace{Node: sp.element})
 							return
